@@ -3,11 +3,25 @@ use std::str::FromStr;
 use crate::error::ZervError;
 use crate::version::zerv::Zerv;
 
+/// Enough for the deepest `custom` value the CLI can produce (2 x 128 JSON levels + the document itself),
+/// still far below what the stack can take
+const RON_RECURSION_LIMIT: usize = 300;
+
+impl Zerv {
+    /// RON options for reading Zerv documents
+    pub fn ron_options() -> ron::Options {
+        ron::Options::default().with_recursion_limit(RON_RECURSION_LIMIT)
+    }
+}
+
 impl FromStr for Zerv {
     type Err = ZervError;
 
     fn from_str(s: &str) -> Result<Self, Self::Err> {
-        ron::de::from_str(s)
+        // `--custom` accepts JSON nested up to serde_json's limit of 128 levels and every level costs
+        // two levels of RON recursion, so ron's default limit (128) refuses documents zerv itself emits
+        Self::ron_options()
+            .from_str(s)
             .map_err(|e| ZervError::InvalidVersion(format!("Invalid Zerv RON format: {e}")))
     }
 }
